@@ -1493,7 +1493,22 @@ class Interp:
                 return [(st, otherwise)]
             sa = lin.single_atom()
             if not sa:
-                raise Unanalysable("switch on %r" % (v,))
+                # a difference of two quantities (`checked_sub(..)` matched against `Some(1)`): decide
+                # each target by linear facts
+                out = []
+                remaining = [st]
+                for val, bb in targets:
+                    cv = conv(val)
+                    nxt = []
+                    for s in remaining:
+                        for s1 in s.copy().assume(("le0", lin - cv), True):
+                            for s2 in s1.assume(("le0", -lin + cv), True):
+                                out.append((s2, bb))
+                        nxt += s.copy().assume(("le0", lin - cv + 1), True)      # lin < cv
+                        nxt += s.copy().assume(("le0", -lin + cv + 1), True)     # lin > cv
+                    remaining = nxt
+                out += [(s, otherwise) for s in remaining]
+                return out
             a, k, c0 = sa
             cur = st.aset(a)
             by_bb = {}
